@@ -157,6 +157,11 @@ def run_shard(ctx):
              for n in (30, 80, 200)]
     base += [('long', 'SELECT x FROM t WHERE y IN (' + ', '.join(f"'v{j}'" for j in range(300)) + ') ORDER BY x, (y) DESC'),
              ('long', 'INSERT INTO t (a, b) VALUES ' + ', '.join(f"({j}, 'w{j}')" for j in range(120)))]
+    # chains of one operator around a hundred terms deep (a copy routine may treat deep chains by other code than short ones)
+    for n in (99, 100, 101, 102, 120, 140):
+        chain = ' OR '.join(f'a = {j}' for j in range(n))
+        base += [('chain', f'SELECT x FROM t WHERE {chain}'), ('chain', f'DELETE FROM t WHERE {chain}'), ('chain', f'UPDATE t SET b = 1 WHERE {chain}'),
+                 ('chain', 'SELECT ' + ' + '.join(f'c{j}' for j in range(n)) + ' AS s FROM t')]
     base += gram_statements(ctx.seed, 2000 if ctx.tier == 'quick' else 12000)
     # names that a constructor-side validation could object to although the parser produced them (empty, blank, dotted, numeric, star-like
     # parts in both quotings, as column / table / alias / qualified part)
@@ -420,6 +425,18 @@ def run_shard(ctx):
             for s1 in p1.steps[:2]:
                 for s2 in prev_plan.steps[:2]:
                     fails += eq_laws(s1, s2, acc, 'step-vs-other')
+        # a Result and the step it stands for are different things: never equal, in either order (and the comparison is symmetric)
+        for st in p1.steps[:3]:
+            try:
+                res = st.result
+            except Exception:
+                continue
+            fails += eq_laws(res, st, acc, 'result-vs-its-step')
+            try:
+                if (res == st) or (st == res):
+                    fails.append(({'law': 'result-equals-its-step', 'cls': type(st).__name__}, {'res==step': repr(res == st), 'step==res': repr(st == res)}))
+            except Exception:
+                pass
         # results
         try:
             ra, rb = Result(len(p1.steps)), Result(len(p1.steps))
